@@ -1,8 +1,9 @@
 --------------------------- MODULE ByteBuffer_Gen ---------------------------
 (* Plan generation: `tlc -simulate` walks the ByteBuffer spec and, at depth  *)
 (* Depth, writes the action records of the behaviour as one ndjson plan.     *)
-(* One disjunct per operation kind, so that the many ReadFrom scripts and    *)
-(* payloads do not crowd out the nullary operations.  Payload sizes reach across the small-buffer (64), MinRead    *)
+(* A step is split in two (ticket, then argument; see GenNext) so that the   *)
+(* many ReadFrom scripts and payloads do not crowd out the nullary           *)
+(* operations.  Payload sizes reach across the small-buffer (64), MinRead    *)
 (* (512) and doubling thresholds of the implementation.                      *)
 EXTENDS ByteBuffer, TLCExt, Json, IOUtils
 CONSTANT Depth
